@@ -203,6 +203,10 @@ pub fn main(prop: &'static str) {
                         out.known_replayed(&key, false);
                     }
                 }
+                Some(b) if b.stderr.contains("no matching package named") || b.stderr.contains("failed to select a version") || b.stderr.contains("failed to download") => {
+                    // the sandbox is offline: a crate that is not in the local registry cache is not a verdict
+                    ev.discard("seed_needs_crate_missing_from_offline_cache");
+                }
                 Some(b) => {
                     let (sig, detail) = build_signature(b);
                     if list {
